@@ -764,9 +764,16 @@ class ExpectationPropagation:
         # Normalise posteriors so that empirical mutation rate is constant
         likelihoods = self.edge_likelihoods if rescale_segsites \
             else self.sizebiased_likelihoods  # fmt: skip
+        # `mutation_phase` is the probability of the edge on which each singleton has
+        # been placed, whereas `reallocate_unphased` expects that of the block's first edge
+        singletons = np.flatnonzero(self.mutation_blocks != tskit.NULL)
+        first_edge = self.block_edges[self.mutation_blocks[singletons], 0]
+        on_second = singletons[self.mutation_edges[singletons] != first_edge]
+        block_phase = self.mutation_phase.copy()
+        block_phase[on_second] = 1 - block_phase[on_second]
         reallocate_unphased(  # correct mutation counts for unphased singletons
             likelihoods,
-            self.mutation_phase,
+            block_phase,
             self.mutation_blocks,
             self.block_edges,
         )
